@@ -25,7 +25,7 @@ pub fn iter_mut_prefix<T: Q, const N: usize>(pre: Pre, tables: Tables, g: Grp, f
     let (mut q, _gh, want0) = pre_state::<T, N>(pre, tables);
     let c = sym::below(N as u8 + 2) as usize;
     let mut want = want0;
-    let mut seen: u16 = 0;
+    let mut seen: u32 = 0;
     {
         let mut it = if via_ref { q.iter_mut_ref() } else { q.iter_mut_q() };
         let mut step = 0;
@@ -35,10 +35,10 @@ pub fn iter_mut_prefix<T: Q, const N: usize>(pre: Pre, tables: Tables, g: Grp, f
                     None => assert!(step >= N, "ITER: iter_mut yields every element before None"),
                     Some((i, p)) => {
                         assert!(step < N, "ITER: iter_mut yields no more elements than are stored");
-                        let k = i.key & 15;
+                        let k = i.key & 31;
                         assert!(want0.get(k) == Some((i.pay, p.0)), "ITER: iter_mut yields stored elements");
-                        assert!(seen & (1u16 << k) == 0, "ITER: iter_mut yields an element at most once");
-                        seen |= 1u16 << k;
+                        assert!(seen & (1u32 << k) == 0, "ITER: iter_mut yields an element at most once");
+                        seen |= 1u32 << k;
                         let w = sym::u8();
                         let wp = sym::u8();
                         p.0 = w;
@@ -78,7 +78,7 @@ pub fn iter_mut_proto<T: Q, const N: usize>(via_ref: bool) {
     let mut pi: [*const Item; MAXS] = [core::ptr::null(); MAXS];
     let mut pp: [*const Pr; MAXS] = [core::ptr::null(); MAXS];
     let mut yielded = 0usize;
-    let mut seen: u16 = 0;
+    let mut seen: u32 = 0;
     let mut used_back = false;
     {
         let mut it = if via_ref { q.iter_mut_ref() } else { q.iter_mut_q() };
@@ -101,10 +101,10 @@ pub fn iter_mut_proto<T: Q, const N: usize>(via_ref: bool) {
                 None => assert!(remaining == 0, "ITER: iter_mut returns None only after every element was yielded"),
                 Some((i, p)) => {
                     assert!(remaining > 0, "ITER: iter_mut yields nothing after exhaustion");
-                    let k = i.key & 15;
+                    let k = i.key & 31;
                     assert!(want0.get(k) == Some((i.pay, p.0)), "ITER: iter_mut yields stored elements");
-                    assert!(seen & (1u16 << k) == 0, "ITER: iter_mut never yields the same element twice");
-                    seen |= 1u16 << k;
+                    assert!(seen & (1u32 << k) == 0, "ITER: iter_mut never yields the same element twice");
+                    seen |= 1u32 << k;
                     let ai = i as *const Item;
                     let ap = p as *const Pr;
                     let mut j = 0;
@@ -137,7 +137,7 @@ where
     F: Fn(I::Item) -> (u8, u8, u8),
 {
     let mut yielded = 0usize;
-    let mut seen: u16 = 0;
+    let mut seen: u32 = 0;
     let mut step = 0;
     let mut used_back = false;
     let mut used_front = false;
@@ -157,8 +157,8 @@ where
                 assert!(remaining > 0, "ITER: nothing is yielded after exhaustion");
                 let (k, pay, prio) = f(x);
                 assert!(k < KEYS && want0.get(k) == Some((pay, prio)), "ITER: yields stored elements");
-                assert!(seen & (1u16 << k) == 0, "ITER: no element is yielded twice (from either end)");
-                seen |= 1u16 << k;
+                assert!(seen & (1u32 << k) == 0, "ITER: no element is yielded twice (from either end)");
+                seen |= 1u32 << k;
                 yielded += 1;
             }
         }
@@ -200,13 +200,13 @@ pub fn into_vec<T: Q, const N: usize>() {
     let (q, gh, want0) = pre_state::<T, N>(Pre::Inv, Tables::Any);
     let v = q.into_vec();
     assert!(v.len() == N, "ITER: into_vec returns every item");
-    let mut seen: u16 = 0;
+    let mut seen: u32 = 0;
     let mut s = 0;
     while s < N {
-        let k = v[s].key & 15;
+        let k = v[s].key & 31;
         assert!(want0.get(k).map(|x| x.0) == Some(v[s].pay), "ITER: into_vec returns stored items");
-        assert!(seen & (1u16 << k) == 0, "ITER: into_vec returns every item once");
-        seen |= 1u16 << k;
+        assert!(seen & (1u32 << k) == 0, "ITER: into_vec returns every item once");
+        seen |= 1u32 << k;
         s += 1;
     }
     let _ = gh;
@@ -220,7 +220,7 @@ pub fn into_vec<T: Q, const N: usize>() {
 pub fn drain<T: Q, const N: usize>(pre: Pre, forget: bool) {
     let (mut q, _gh, want0) = pre_state::<T, N>(pre, Tables::Any);
     let c = sym::below(N as u8 + 2) as usize;
-    let mut seen: u16 = 0;
+    let mut seen: u32 = 0;
     let mut yielded = 0usize;
     {
         let mut it = q.drain_q();
@@ -232,10 +232,10 @@ pub fn drain<T: Q, const N: usize>(pre: Pre, forget: bool) {
                 match r {
                     None => assert!(yielded == N, "DRAIN: None only after every element was yielded"),
                     Some((i, p)) => {
-                        let k = i.key & 15;
+                        let k = i.key & 31;
                         assert!(want0.get(k) == Some((i.pay, p.0)), "DRAIN: yields stored elements");
-                        assert!(seen & (1u16 << k) == 0, "DRAIN: yields every element at most once");
-                        seen |= 1u16 << k;
+                        assert!(seen & (1u32 << k) == 0, "DRAIN: yields every element at most once");
+                        seen |= 1u32 << k;
                         yielded += 1;
                     }
                 }
@@ -283,7 +283,7 @@ pub fn drain<T: Q, const N: usize>(pre: Pre, forget: bool) {
 pub fn sorted_iter<T: Q, const N: usize>(tables: Tables) {
     let (q, gh, want0) = pre_state::<T, N>(Pre::Inv, tables);
     let mut it = q.into_sorted_iter_q();
-    let mut seen: u16 = 0;
+    let mut seen: u32 = 0;
     let mut yielded = 0usize;
     let mut step = 0;
     let mut used_back = false;
@@ -302,17 +302,17 @@ pub fn sorted_iter<T: Q, const N: usize>(tables: Tables) {
                 used_back |= back;
                 used_front |= !back;
                 assert!(remaining > 0, "SORT: nothing is yielded after exhaustion");
-                let k = i.key & 15;
+                let k = i.key & 31;
                 assert!(want0.get(k) == Some((i.pay, p.0)), "SORT: yields stored elements");
-                assert!(seen & (1u16 << k) == 0, "SORT: no element is yielded twice (from either end)");
-                seen |= 1u16 << k;
+                assert!(seen & (1u32 << k) == 0, "SORT: no element is yielded twice (from either end)");
+                seen |= 1u32 << k;
                 yielded += 1;
                 // an extreme of what remained: the PriorityQueue iterator and next_back
                 // yield a maximum, the DoublePriorityQueue's next a minimum
                 let want_max = !T::DOUBLE || back;
                 let mut s = 0;
                 while s < N {
-                    if seen & (1u16 << gh.key[s]) == 0 {
+                    if seen & (1u32 << gh.key[s]) == 0 {
                         if want_max {
                             assert!(p.0 >= gh.prio[s], "SORT: yields a maximum of what remains");
                         } else {
@@ -337,7 +337,7 @@ pub fn sorted_iter<T: Q, const N: usize>(tables: Tables) {
 pub fn sorted_steps<T: Q, const N: usize, const K: usize>(tables: Tables) {
     let (q, gh, want0) = pre_state::<T, N>(Pre::Inv, tables);
     let mut it = q.into_sorted_iter_q();
-    let mut seen: u16 = 0;
+    let mut seen: u32 = 0;
     let mut yielded = 0usize;
     let mut step = 0;
     let mut ends_differ = false;
@@ -355,15 +355,15 @@ pub fn sorted_steps<T: Q, const N: usize, const K: usize>(tables: Tables) {
         match if back { it.back() } else { it.next() } {
             None => assert!(yielded == N, "SORT: None only after every element was yielded"),
             Some((i, p)) => {
-                let k = i.key & 15;
+                let k = i.key & 31;
                 assert!(want0.get(k) == Some((i.pay, p.0)), "SORT: yields stored elements");
-                assert!(seen & (1u16 << k) == 0, "SORT: no element is yielded twice (from either end)");
-                seen |= 1u16 << k;
+                assert!(seen & (1u32 << k) == 0, "SORT: no element is yielded twice (from either end)");
+                seen |= 1u32 << k;
                 yielded += 1;
                 let want_max = !T::DOUBLE || back;
                 let mut s = 0;
                 while s < N {
-                    if seen & (1u16 << gh.key[s]) == 0 {
+                    if seen & (1u32 << gh.key[s]) == 0 {
                         if want_max {
                             assert!(p.0 >= gh.prio[s], "SORT: yields a maximum of what remains");
                         } else {
@@ -385,15 +385,15 @@ pub fn sorted_vec<T: Q, const N: usize>(asc: bool, tables: Tables) {
     let (q, _gh, want0) = pre_state::<T, N>(Pre::Inv, tables);
     let v = if asc { q.into_asc_vec() } else { q.into_desc_vec() };
     assert!(v.len() == N, "SORT: sorted vector holds every item");
-    let mut seen: u16 = 0;
+    let mut seen: u32 = 0;
     let mut last: Option<u8> = None;
     let mut s = 0;
     while s < N {
-        let k = v[s].key & 15;
+        let k = v[s].key & 31;
         let e = want0.get(k);
         assert!(e.map(|x| x.0) == Some(v[s].pay), "SORT: sorted vector holds stored items");
-        assert!(seen & (1u16 << k) == 0, "SORT: sorted vector holds every item once");
-        seen |= 1u16 << k;
+        assert!(seen & (1u32 << k) == 0, "SORT: sorted vector holds every item once");
+        seen |= 1u32 << k;
         let p = e.unwrap().1;
         if let Some(l) = last {
             if asc {
